@@ -54,6 +54,11 @@ class AE(enum.Enum):
     B = 2
 
 
+class AFl(enum.IntFlag):   # flag values without a member name exist: AFl(0), AFl(8), AFl(16)
+    R = 1
+    W = 2
+
+
 _SRC = '''
 @dataclass(frozen=True)
 class AV(ASTNode):
@@ -142,7 +147,8 @@ VALUES = [_FS_A, _FS_B, frozenset([(1, 2), (2, 1)]), frozenset([(2, 1), (1, 2)])
           frozenset(["c", "b", "a"]),
           # the same sets one and two tuple levels down (a set is an unordered value wherever it sits)
           (_FS_A,), (_FS_B,), ((_FS_A,),), ((_FS_B,),), (1, (frozenset([8, 16, 0]),)), (1, (frozenset([16, 8, 0]),)),
-          ((frozenset(["a", "b", "c"]),),), ((frozenset(["c", "b", "a"]),),)]
+          ((frozenset(["a", "b", "c"]),),), ((frozenset(["c", "b", "a"]),),),
+          AFl(0), AFl(8), AFl(16), AFl.R, AFl.R | AFl.W, (AFl(8),), (AFl(16),)]
 
 
 def make_universes(order: int):
@@ -204,7 +210,7 @@ def canon(x, shallow=False, inside=False) -> str:
     if isinstance(x, frozenset):
         return "{" + ",".join(sorted(canon(v, shallow, inside) for v in x)) + "}"
     if isinstance(x, enum.Enum):
-        return f"<{type(x).__name__}.{x.name}>"
+        return f"<{type(x).__name__}.{x.name}:{x.value!r}>"   # flag values may have no name: the value tells them apart
     return repr(x)
 
 
@@ -614,6 +620,8 @@ def freeze_desc(U, d):
 
 def freeze(x):
     """JSON-able encoding that keeps enums / frozensets / tuples apart (jsonable() would blur them)."""
+    if isinstance(x, AFl):
+        return {"$flag": int(x)}
     if isinstance(x, enum.Enum):
         return {"$enum": x.name}
     if isinstance(x, frozenset):
@@ -627,6 +635,8 @@ def freeze(x):
 
 def revive(x):
     if isinstance(x, dict):
+        if "$flag" in x:
+            return AFl(x["$flag"])
         if "$enum" in x:
             return AE[x["$enum"]]
         if "$fs" in x:
